@@ -45,7 +45,9 @@ Ranges == <<RI(0, 2, 3), RI(0, 2, 0), RI(0, 2, 1), RI(0, 2, 2), RI(1, 1, 3), RI(
             RF(500, 1500, 3), RF(500, 1500, 0), RF(500, 1500, 1), RF(500, 1500, 2),
             RF(0, FHuge, 0)>>
 Regexes == <<RE(FALSE, FALSE, sa), RE(TRUE, FALSE, sa), RE(FALSE, TRUE, sb), RE(TRUE, TRUE, sab),
-             RE(FALSE, FALSE, se), RE(TRUE, TRUE, <<>>), RE(FALSE, FALSE, sastral)>>
+             RE(FALSE, FALSE, se), RE(TRUE, TRUE, <<>>), RE(FALSE, FALSE, sastral),
+             \* with the wildcard `.` (code point 0): /^a.$/, /./, /b./
+             RE(TRUE, TRUE, <<97, 0>>), RE(FALSE, FALSE, <<0>>), RE(FALSE, FALSE, <<98, 0>>)>>
 InLists == <<L(<<I(1), I(2)>>), L(<<S(sa), S(sb)>>), L(<<I(1), S(sa)>>), L(<<N, B(TRUE)>>),
              L(<<F(500), F(1500)>>), L(<<L(<<I(1)>>), L(<<I(1), I(2)>>)>>),
              L(<<M(<<ka>>, <<I(1)>>)>>)>>
@@ -187,7 +189,9 @@ RegexLaws ==
      Pass(di, "eq", OpRhs[oi][2]) <=>
        /\ x.t = "str"
        /\ \E s \in 0 .. Len(x.v) : \E e \in s .. Len(x.v) :
-            /\ SubSeq(x.v, s + 1, e) = re.v
+            \* the segment matches the pattern character by character (0 = the wildcard `.`)
+            /\ e - s = Len(re.v)
+            /\ \A k \in 1 .. Len(re.v) : re.v[k] = 0 \/ re.v[k] = x.v[s + k]
             /\ (re.s => s = 0)
             /\ (re.e => e = Len(x.v)))
 
